@@ -238,6 +238,27 @@ theorem retry_consumes_a_try_partial (c : Cfg) (n tries : Nat) (nx : Nat × Nat)
     (newRetry c n tries nx).tries = tries - 1 ∧ (newRetry c n tries nx).deadline = n + c.hopTimeout :=
   ⟨rfl, rfl⟩
 
+/-- **A handshake that does not verify leaves the retry cache in charge.**  A created / extended whose authenticator
+    does not verify aborts `_ours_on_created_extended` (the exception is swallowed by `on_packet_from_circuit`); the
+    harness reports such a cell with body `other`.  In the model that cell only beats the circuit's heart: no entry is
+    added or dropped and every circuit keeps its `retry` (deadline, tries) and `waiting` fields, so the timeout of the
+    RetryRequestCache still retries or gives the circuit up (`halfbuilt_gives_up_partial`).  (Modelling statement: its
+    link to the code is the correspondence run with faulty hops, class `bad_auth`.) -/
+theorem failed_handshake_keeps_retry (c : Cfg) (s : Node) (id : Nat) (early plain ok : Bool)
+    (hn : s.relays.get id = none) :
+    (s.step c (.cell id early plain ok .other)).circuits = s.circuits ∨
+    (s.step c (.cell id early plain ok .other)).circuits = s.circuits.modify id (Entry.beat s.now) := by
+  show (s.onCell c id early plain ok .other).circuits = _ ∨ (s.onCell c id early plain ok .other).circuits = _
+  unfold Node.onCell
+  simp only [hn]
+  split
+  · exact Or.inl rfl
+  · exact Or.inr rfl
+
+theorem beat_keeps_retry (n : Nat) (e : Entry) :
+    (e.beat n).retry = e.retry ∧ (e.beat n).waiting = e.waiting ∧ (e.beat n).gone = e.gone ∧
+    (e.beat n).closing = e.closing ∧ (e.beat n).hops = e.hops := ⟨rfl, rfl, rfl, rfl, rfl⟩
+
 /-- a small configuration for the non-vacuity examples (1 tick = 1 s: 20 s inactivity, 5 s sweep, 5 s delay) -/
 def demoCfg : Cfg :=
   { Gen.cfg with inactive := 20, maxTime := 3600, delay := 5, period := 5, hopTimeout := 10, createdTtl := 60,
@@ -331,6 +352,14 @@ example : ((reach demoCfg 0 (demoEvs ++
                (20, .cell 8 false false true .junk), (26, .cell 9 false false true .junk),
                (32, .cell 8 false false true .junk), (38, .cell 9 false false true .junk), (40, .outside 0)])).relays.filter
               (fun p => !p.2.gone)).map (·.1) = [8, 9] := by decide +kernel
+
+/-- non-vacuity: a created with the right identifier that does not verify arrives at time 2 (body `other`); the
+    cache (tries 5, deadline 11) is still there at 10, the retry at 11 installs tries 4 -/
+example : ((reach demoCfg 0 [(1, .mkCircuit 9 2 4 3 100), (2, .cell 9 false true true .other),
+                             (10, .outside 0)]).circuits.map (fun p => (p.2.retry.map (·.tries), p.2.hops)),
+           (reach demoCfg 0 [(1, .mkCircuit 9 2 4 3 100), (2, .cell 9 false true true .other),
+                             (11, .retry 9 4 (some (2, 101)))]).circuits.map (fun p => (p.2.retry.map (·.tries), p.2.hops)))
+          = ([(some 5, 0)], [(some 4, 0)]) := by decide +kernel
 
 example : 0 < Gen.cfg.period := by decide
 
